@@ -1069,5 +1069,10 @@ def check(program, rep):
     # a tree shared between nets collects the leaves of both (C01-R3)
     from . import C01
     rep.guard("C01-R3", C01.tree_per_net, program, rep)
+    # arguments handed to package functions under the wrong name / same-
+    # named optional parameters not passed on (NAMELINK, DESIGN.md 9.13)
+    from .. import namelink as _nl
+    rep.guard("C03-R7", _nl.rule, program, rep, "C03-R7",
+              [m for m in sorted(program.modules) if m.startswith("rig.place_and_route")])
     return finish(rep, program, EXPLANATION, NOT_DECIDED,
                   trusted=["link vectors and opposites as verified by C11"])
